@@ -36,10 +36,12 @@ CHECK_DEADLOCK FALSE
 def client_model(run):
     run.model_check("ClientMC", cl_mc_cfg("K1"), "Client K1: 16 flag sets x every reply frame class, whole or cut, server dies: all schedules", timeout=600)
     run.model_check("ClientMC", cl_mc_cfg("K2"), "Client K2: reply streams of 2-3 frames x every composition into writes x every death offset: all schedules", timeout=600)
+    run.model_check("ClientMC", cl_mc_cfg("K3"), "Client K3: pipelined Sends between the receive calls of 2-3 replies x every composition into writes: all schedules", timeout=600)
 
 
 def client_scen(run):
-    g = run.generate("ClientGen", CL_GEN_CFG, ["cscen_K1.ndjson", "cscen_K2.ndjson"])
+    g = run.generate("ClientGen", CL_GEN_CFG, ["cscen_K1.ndjson", "cscen_K2.ndjson", "cscen_K3.ndjson"])
+    run.k3 = g["cscen_K3.ndjson"]
     return g["cscen_K1.ndjson"], g["cscen_K2.ndjson"]
 
 
@@ -47,17 +49,19 @@ def check_C11(run):
     thorough = run.tier == "thorough"
     client_model(run)
     k1, k2 = client_scen(run)
-    run.extra["scenario_space"] = {"K1": len(k1), "K2": len(k2)}
+    run.extra["scenario_space"] = {"K1": len(k1), "K2": len(k2), "K3": len(run.k3)}
     a = k1 if thorough else run.rng.sample(k1, min(len(k1), 700))
     b = k2 if thorough else run.rng.sample(k2, min(len(k2), 700))
     nt = lambda c: sum(1 for l in c if '"ev":"RE"' in l) >= 2
     replay_validate(run, a, ["client"], "ClientTrace", CL_TRACE_CFG, "C11 flag sets x single reply frames", nontrivial=nt, shards=16)
     replay_validate(run, b, ["client"], "ClientTrace", CL_TRACE_CFG, "C11 reply streams x segmentations x server death offsets", nontrivial=nt, shards=16)
+    k3 = run.k3 if thorough else run.rng.sample(run.k3, min(len(run.k3), 300))
+    replay_validate(run, k3, ["client"], "ClientTrace", CL_TRACE_CFG, "C11 pipelined Sends between the receive calls of 2-3 replies", nontrivial=nt, shards=16)
     cut = [l for l in k2 if json.loads(l)["segs"] == [1] and json.loads(l)["frames"][0]["nb"] == 2]
     c = cut if thorough else run.rng.sample(cut, min(len(cut), 5))
     replay_validate(run, c, ["client", "-allcuts"], "ClientTrace", CL_TRACE_CFG, "C11 server dies at every byte offset of the first reply frame", nontrivial=nt, shards=min(16, len(c)))
     run.write_evidence("model_checking",
-        "scenarios = TLC-enumerated families K1/K2 of spec/ClientScen.tla (all 16 flag combinations; reply frame classes reply+-continues, error names, the four standard errors with present/absent/undecodable parameters, null, invalid JSON, non-objects, wrong member types, empty frame, partial frame; streams up to 3 frames; all compositions into writes; server death after any symbol and, byte-wise, after every byte of the first frame); non-trivial = at least two receive calls returned",
+        "scenarios = TLC-enumerated families K1/K2/K3 of spec/ClientScen.tla (K3: further Sends on the connection between the receive calls) (all 16 flag combinations; reply frame classes reply+-continues, error names, the four standard errors with present/absent/undecodable parameters, null, invalid JSON, non-objects, wrong member types, empty frame, partial frame; streams up to 3 frames; all compositions into writes; server death after any symbol and, byte-wise, after every byte of the first frame); non-trivial = at least two receive calls returned",
         exhaustive=thorough,
         assumptions=["the scripted server reads the whole request before it writes or closes, so its close is a clean EOF",
                      "a reply whose parameters do not fit the caller's out-value is outside the statement (not judged)"])
